@@ -32,14 +32,18 @@ def gc_m(a: Tuple[float, float], b: Tuple[float, float]) -> float:
 
 
 @st.composite
-def st_graph(draw, min_nodes: int = 4, max_nodes: int = 12, varied_speed: bool = True, arbitrary_lengths: bool = False) -> Dict[str, Any]:
+def st_graph(draw, min_nodes: int = 4, max_nodes: int = 12, varied_speed: bool = True, arbitrary_lengths: bool = False,
+             scales: Tuple[int, ...] = (1,)) -> Dict[str, Any]:
     n = draw(st.integers(min_nodes, max_nodes))
     side = math.ceil(math.sqrt(n))
     jit = st.integers(-8, 8)
+    # geographic scale: 1 = a downtown of ~1.5 km (entity sites fit on it), larger = towns / regions of 5-60 km, where
+    # anything that depends on absolute distances (search discs, cut-offs) behaves differently
+    scale = draw(st.sampled_from(list(scales)))
     nodes = []
     for i in range(n):
-        la = LAT0 + 0.0035 * (i // side) + draw(jit) * 0.0001
-        lo = LON0 + 0.0045 * (i % side) + draw(jit) * 0.0001
+        la = LAT0 + scale * (0.0035 * (i // side) + draw(jit) * 0.0001)
+        lo = LON0 + scale * (0.0045 * (i % side) + draw(jit) * 0.0001)
         nodes.append([100 + i, round(la, 6), round(lo, 6)])
     perm = draw(st.permutations(list(range(n))))
     pairs = {(perm[i], perm[(i + 1) % n]) for i in range(n)}
